@@ -39,7 +39,7 @@ P("C01", "model_checking",
   models=["MC_Codec"], families=["requests", "responses", "vendor", "lengths"])
 P("C02", "model_checking",
   "non-trivial = decode/process of a byte string whose last byte is not the PEC of the rest (every <=8-bit burst of every corpus packet, wrong PEC bytes, random strings); distinct = distinct (context, input bytes)",
-  models=["MC_Pec", "MC_Decode", "MC_Endpoint", "MC_Link"], gen=["GenEndpoint"], families=["corrupt"])
+  models=["MC_Pec", "MC_Decode", "MC_Endpoint", "MC_Link"], gen=["GenEndpoint"], families=["bus", "corrupt"])
 P("C03", "model_checking",
   "non-trivial = an encoder call that returned Ok (PEC of the output recomputed by the spec); distinct = distinct encoder arguments",
   models=["MC_Pec", "MC_Codec"], families=["forge", "lengths", "requests", "responses", "vendor"])
@@ -63,22 +63,22 @@ P("C09", "model_checking",
   models=["MC_Decode", "MC_Endpoint"], gen_quick=["GenDecode"], gen_thorough=["GenDecodeFull"], families=["mutate", "robust"])
 P("C10", "exploration",
   "every decode_packet / get_length / process_packet call is an evaluation (panic trapped as data); distinct = distinct (op, context, input bytes)",
-  models=["MC_Decode", "MC_Endpoint"], gen_quick=["GenDecode"], gen_thorough=["GenDecodeFull"], families=["robust", "mutate", "corrupt"])
+  models=["MC_Decode", "MC_Endpoint"], gen_quick=["GenDecode"], gen_thorough=["GenDecodeFull"], families=["bus", "robust", "mutate", "corrupt"])
 P("C11", "model_checking",
   "non-trivial = a process_packet call where both decode_packet and process_packet returned; distinct = distinct (context, bytes, buffer size)",
-  models=["MC_Endpoint"], gen=["GenEndpoint", "GenEndpointSim"], families=["forge", "robust", "corrupt"])
+  models=["MC_Endpoint"], gen=["GenEndpoint", "GenEndpointSim"], families=["bus", "forge", "robust", "corrupt"])
 P("C12", "model_checking",
   "non-trivial = process_packet on an accepted control request in C12's domain (answerable command, source address = source EID < 0x80, D = 0); distinct = distinct (context, request bytes)",
-  models=["MC_Endpoint", "MC_Link"], gen=["GenEndpoint", "GenEndpointSim"], families=["forge", "vendor_enum", "identity", "history"])
+  models=["MC_Endpoint", "MC_Link"], gen=["GenEndpoint", "GenEndpointSim"], families=["bus", "forge", "vendor_enum", "identity", "history"])
 P("C13", "model_checking",
   "non-trivial = a processed Set/Get Endpoint ID packet (accepted, rejected or corrupted) or a direct accessor call; every event with a context is an evaluation of 'nothing else changes it'; distinct = distinct (context, input)",
-  models=["MC_Endpoint", "MC_Link"], gen=["GenAlphabet", "GenEndpoint", "GenEndpointSim"], families=["tour", "history", "forge", "corrupt"])
+  models=["MC_Endpoint", "MC_Link"], gen=["GenAlphabet", "GenEndpoint", "GenEndpointSim"], families=["bus", "tour", "history", "forge", "corrupt"])
 P("C14", "model_checking",
   "non-trivial = process_packet on an accepted Get Vendor Defined Message Support request with selector < n; distinct = distinct (configuration, request)",
-  models=["MC_Endpoint", "MC_Link"], gen=["GenEndpoint", "GenEndpointSim"], families=["vendor_enum", "forge"])
+  models=["MC_Endpoint", "MC_Link"], gen=["GenEndpoint", "GenEndpointSim"], families=["bus", "vendor_enum", "forge"])
 P("C15", "model_checking",
   "non-trivial = process_packet on an accepted Get UUID / Get Version / Get Message Type Support request; distinct = distinct (configuration, UUID history, request)",
-  models=["MC_Endpoint", "MC_Link"], gen=["GenEndpoint", "GenEndpointSim"], families=["identity", "forge"])
+  models=["MC_Endpoint", "MC_Link"], gen=["GenEndpoint", "GenEndpointSim"], families=["bus", "identity", "forge"])
 P("C16", "model_checking",
   "every encoder call is an evaluation (refusal table, exact write extent via poisoned buffers, independence from capacity/poison via repeated calls); distinct = distinct (arguments, capacity, poison)",
   models=["MC_Codec"], families=["requests", "responses", "vendor", "lengths"])
